@@ -31,8 +31,8 @@ def run(fx, rep):
     # the round-trip clause imports the exported document with to_value(serde_json::Value): the serializer's shape table for the
     # JSON-native kinds (null, bool, numbers, string, sequence, map with string keys) and the store-every-entry effects are C17 R1
     from .report import producer_rules
-    producer_rules(fx, rep, 'producer rule: importing a JSON document stores every element and entry it is given and maps the JSON-native kinds to their CEL kinds (C17 R1)',
-                   [('c17', 'C17', r'^R1/(Serializer/serialize_(bool|i64|u64|f64|str|unit|none|some|seq|map)|SerializeVec/|SerializeMap/)')], 8)
+    producer_rules(fx, rep, 'producer rule: importing a JSON document stores every element and entry it is given and maps the JSON-native kinds to their CEL kinds and member names to string keys (C17 R1/R2)',
+                   [('c17', 'C17', r'^(R1/(Serializer/serialize_(bool|i64|u64|f64|str|unit|none|some|seq|map)|SerializeVec/|SerializeMap/)|R2/KeySerializer/serialize_(str|bool|i64|u64))')], 10)
     if 'json' not in fx.features('cel_interpreter'):
         rep.note('feature json disabled: Value::json does not exist in this configuration')
         return
